@@ -74,9 +74,13 @@ enum Ev {
     PubRec,
     /// PUBCOMP for the outstanding QoS 2 exchange arrives now
     PubComp,
+    /// an inbound QoS 1 publish arrives and is handed to the application, which stays away from poll() until the
+    /// pending timer is due and then publishes at QoS 0: that call first writes the owed PUBACK - which the transport
+    /// stalls for three seconds - then whatever keep-alive traffic is due, then the publish; then it polls again
+    InboundQos1ThenPublishAtTimerWithStalledWrite,
 }
 
-const EVENTS: [Ev; 24] = [
+const EVENTS: [Ev; 25] = [
     Ev::TimerExact,
     Ev::TimerLate,
     Ev::Inbound,
@@ -101,6 +105,7 @@ const EVENTS: [Ev; 24] = [
     Ev::CancelAndPublish2,
     Ev::PubRec,
     Ev::PubComp,
+    Ev::InboundQos1ThenPublishAtTimerWithStalledWrite,
 ];
 
 pub struct C10 {
@@ -205,6 +210,8 @@ impl C10 {
 }
 
 enum After {
+    /// (timer due time in ticks)
+    InboundThenPub(u64),
     RefusedPub,
     Pub(u8),
     Repoll,
@@ -444,6 +451,15 @@ impl Model for C10 {
                                             res = After::Repoll;
                                             break;
                                         }
+                                        Ev::InboundQos1ThenPublishAtTimerWithStalledWrite => match wake {
+                                            Some(t) if t > clock::now() && mon.ping_at.is_none() && e_ms > 0 => {
+                                                bench.push(id, &[0x32, 0x07, 0x00, 0x01, b'a', 0x00, 0x07, 0x00, 0x55]);
+                                                log!("Inbound QoS 1 publish at {} ms", now_ms());
+                                                res = After::InboundThenPub(t);
+                                                break;
+                                            }
+                                            _ => na = true,
+                                        },
                                         Ev::ToKeepaliveExpiry | Ev::PastKeepaliveExpiry => {
                                             let extra = if ev == Ev::PastKeepaliveExpiry { 1 } else { 0 };
                                             let target = (mon.last_tx + e_ms + extra) * clock::TICKS_PER_MS;
@@ -540,6 +556,59 @@ impl Model for C10 {
                             // keep the identifier counter from growing without bound (setter validated under C07)
                             conn.verif_session_mut().verif_set_next_packet_id(1);
                             let r = bench_publish(bench, &mut conn, id, q);
+                            if let Err(e) = r {
+                                log!("publish -> {:?}", e);
+                                if e.fatal() {
+                                    mon.dead = true;
+                                    break 'outer;
+                                }
+                            }
+                            self.account_writes(bench, id, &mut seen, &mut mon, &mut viol, false);
+                            continue 'outer;
+                        }
+                        After::InboundThenPub(t) => {
+                            // the message is handed over by a fresh poll(); its PUBACK stays queued
+                            let got = {
+                                let mut fut = Box::pin(conn.poll());
+                                let mut cx = Context::from_waker(&waker);
+                                bench.sh.borrow_mut().op_calls = 0;
+                                match fut.as_mut().poll(&mut cx) {
+                                    Poll::Ready(Ok(Some(_))) => true,
+                                    Poll::Ready(Ok(None)) => false,
+                                    Poll::Ready(Err(e)) => panic!("machinery: poll failed on an inbound publish: {:?}", Res::from_err(&e)),
+                                    Poll::Pending => panic!("machinery: poll blocked with an inbound publish waiting"),
+                                }
+                            };
+                            if !got {
+                                viol.push(("C10:inbound-not-delivered:qos1".into(), "poll() did not hand over the inbound QoS 1 publish".into()));
+                                break 'outer;
+                            }
+                            self.account_writes(bench, id, &mut seen, &mut mon, &mut viol, false);
+                            if t > clock::now() {
+                                clock::set(t);
+                            }
+                            log!("the application stays away from poll() until {} ms, then publishes at QoS 0; the first write of that call stalls", now_ms());
+                            bench.sh.borrow_mut().stall_next_write = true;
+                            let r = {
+                                let mut fut = Box::pin(conn.publish(Publication::bytes("t", b"x")));
+                                let mut cx = Context::from_waker(&waker);
+                                loop {
+                                    bench.sh.borrow_mut().pending = Pend::None;
+                                    bench.sh.borrow_mut().op_calls = 0;
+                                    match fut.as_mut().poll(&mut cx) {
+                                        Poll::Ready(Ok(_)) => break Ok(()),
+                                        Poll::Ready(Err(e)) => break Err(Res::from_pub(&e)),
+                                        Poll::Pending if bench.sh.borrow().pending == Pend::Chosen => {
+                                            clock::set(clock::now() + STALL_MS * clock::TICKS_PER_MS);
+                                            mon.late_ms += STALL_MS;
+                                            mon.stalled = true;
+                                            log!("the transport accepts the write after {} ms, at {} ms", STALL_MS, now_ms());
+                                        }
+                                        Poll::Pending => panic!("machinery: publish blocked on a writable transport"),
+                                    }
+                                }
+                            };
+                            bench.sh.borrow_mut().stall_next_write = false;
                             if let Err(e) = r {
                                 log!("publish -> {:?}", e);
                                 if e.fatal() {
